@@ -261,9 +261,19 @@ PROPS["C25"] = dict(
 
 MEMO_NOTE = "Native bounded harness (harness/memo_native.py): the real Memoer with scripted send/receive. "
 PROPS["C20"] = dict(
-    contracts=[], harness="harness.memo_native:C20", level="exploration", technique="bounded runtime contract (segment with the real rend, deliver in many orders with duplicates to the real receive path) -- stand-in",
-    explanation=MEMO_NOTE + "memos (ASCII, unicode, long) x gram sizes x base64/binary headers x plain/sure/auth codes x delivery orders (in order, reversed, shuffles, duplicates, "
-                "interleaved servicing) and a missing-gram case. The slice-arithmetic contracts for rend/pick planned in DESIGN.md are not built.")
+    contracts=["contracts.memo_rx"], harness="harness.memo_native:C20", level="other",
+    technique="contract-based deductive verification (pyvc) of Memoer.fuse (unbounded), _serviceOneReceived and _serviceOnceRxGrams (bounded-symbolic); bounded runtime "
+              "contract (segment with the real rend, deliver in many orders with duplicates to the real receive path) for rend/pick and whole deliveries",
+    trusted_base=['EXT receive() returns any (gram, src); pick(gram) returns any (mid, vid, gn, gc) or raises MemoerError/ValueError/LookupError: the header parsing and the signature check inside pick/wiff/verify are NOT under contract (regex, base64 and pysodium: native tier only)', 'bytes.decode raises UnicodeDecodeError or returns DEC(bytes) (uninterpreted)'],
+    assumptions=["_serviceOneReceived / _serviceOnceRxGrams: at most 2 memo ids in flight, each with at most 2 stored grams (symbolic ids, numbers, bodies)",
+                 "the sender side (rend: slice arithmetic, declared gram count) and pick are covered by the native tier only"],
+    explanation="PROVED, unbounded: Memoer.fuse returns a memo only when every gram number below the count is present, and then exactly the stored bodies concatenated in numeric "
+                "order and decoded -- independent of arrival order and of extra stored numbers; MemoerError only for undecodable bytes. PROVED, bounded-symbolic: "
+                "_serviceOneReceived stores a gram only in an empty (memo id, number) slot and sets count / signer / source of a memo id only when absent (duplicates and "
+                "replays change nothing, other memo ids are untouched, invalid grams touch nothing); _serviceOnceRxGrams delivers each fused memo exactly once with the stored "
+                "source and signer and makes all four tables forget the id, leaves incomplete memos untouched, drops undecodable ones. " + MEMO_NOTE +
+                "BOUNDED: memos (ASCII, unicode, long) x gram sizes x base64/binary headers x plain/sure/auth codes x delivery orders (in order, reversed, shuffles, duplicates, "
+                "interleaved servicing) and a missing-gram case.")
 PROPS["C21"] = dict(
     contracts=["contracts.memo_tx"], harness="harness.memo_native:C21", level="other",
     trusted_base=["EXT transport send(gram, dst): returns 0..len(gram) having put gram[:cnt] on the wire, or raises OSError(e)"],
@@ -273,9 +283,18 @@ PROPS["C21"] = dict(
                 "account ++ pending_after == pending_before on every normal return, a gram is dropped only for an unreachable-destination errno, pending remainder or gram on an open "
                 "transport is offered to send() in full and oldest first. " + MEMO_NOTE)
 PROPS["C22"] = dict(
-    contracts=[], harness="harness.memo_native:C22", level="exploration", technique="bounded fault injection (single-byte mutations, truncations, random datagrams) on the real receive path -- stand-in",
-    explanation=MEMO_NOTE + "every gram of valid signed and unsigned memos mutated (bit flips, byte substitutions, truncation, replacement) and delivered in and out of order, plus random "
-                "datagrams with valid and invalid codes: servicing must not raise and, when signatures are required, no memo differing from the sent one is delivered. Cryptographic soundness is assumed of pysodium.")
+    contracts=["contracts.memo_rx"], harness="harness.memo_native:C22", level="other",
+    technique="contract-based deductive verification (pyvc) of the table discipline of the receive side; bounded fault injection (single-byte mutations, truncations, random "
+              "datagrams, second signer) on the real receive path for pick/wiff/verify",
+    trusted_base=['EXT receive() returns any (gram, src); pick(gram) returns any (mid, vid, gn, gc) or raises MemoerError/ValueError/LookupError: the header parsing and the signature check inside pick/wiff/verify are NOT under contract (regex, base64 and pysodium: native tier only)', 'bytes.decode raises UnicodeDecodeError or returns DEC(bytes) (uninterpreted)'],
+    assumptions=["at most 2 memo ids in flight, each with at most 2 stored grams", "cryptographic soundness is assumed of pysodium"],
+    explanation="PROVED, bounded-symbolic: whatever pick() raises among MemoerError/ValueError/LookupError, _serviceOneReceived returns True and touches no table (invalid grams are "
+                "dropped, nothing escapes); the signer id and source recorded for a memo id are the FIRST ones (a later gram, valid or not, cannot re-bind them); the memo "
+                "delivered by _serviceOnceRxGrams carries exactly that stored signer and source; fuse raises only MemoerError, which _serviceOnceRxGrams turns into dropping "
+                "the memo. NOT under contract: the header parsing and signature verification inside pick/wiff/verify. " + MEMO_NOTE +
+                "BOUNDED: every gram of valid signed and unsigned memos mutated (bit flips, byte substitutions, truncation, replacement) and delivered in and out of order, random "
+                "datagrams with valid and invalid codes, an attacker with its own key reusing an observed memo id: servicing must not raise and, when signatures are required, no "
+                "memo differing from the sent one is delivered.")
 
 PROPS["C23"] = dict(
     contracts=[], harness="harness.durable_native:C23", level="exploration", technique="bounded model-based runtime check against FIFO / ordered-set models with a real LMDB store -- stand-in (the property is mostly about the store)",
